@@ -3,7 +3,10 @@ from . import common, corpus, l7_programs, sast
 
 
 def run(rep, tier, only=None):
-    entries = [e for e in corpus.CORPUS if only is None or set(e[1]) & set(only)]
+    # by default a check runs the corpus entries tagged with its own property
+    if only is None:
+        only = [rep.prop]
+    entries = [e for e in corpus.CORPUS if set(e[1]) & set(only)]
     progs = [e[2] for e in entries]
     before_v, before_d = len(rep.violations), len(rep.disagreements)
     l7_programs.run_programs(rep, progs, "CORPUS")
